@@ -30,6 +30,7 @@ import (
 	"strconv"
 	"strings"
 	"sync"
+	"sync/atomic"
 	"time"
 
 	"github.com/pkg/errors"
@@ -475,8 +476,25 @@ func guarded(f func()) (panicked string, hung bool) {
 	case p := <-done:
 		return p, false
 	case <-time.After(60 * time.Second):
+		hangs.Add(1)
 		return "", true
 	}
+}
+
+// calls that did not return (and whose goroutines may still be spinning) in this process: a case stops at
+// its first one, and after maxHangs of them the remaining cases are answered "not run" - the verdict is in,
+// the process would only get slower
+var hangs atomic.Int32
+
+const maxHangs = 8
+
+func (r *result) hung() bool {
+	for _, f := range r.Fails {
+		if f.Kind == "hang" {
+			return true
+		}
+	}
+	return false
 }
 
 type lateReader struct{ r io.Reader }
@@ -644,6 +662,9 @@ func (e *env) do(k *kase, i int, o *opts) result {
 			if o.skip[u.name] {
 				continue
 			}
+			if res.hung() {
+				return res
+			}
 			res.Units++
 			hw, ok := e.handlerSide(&u, c2h, pl)
 			if !ok {
@@ -676,6 +697,9 @@ func (e *env) do(k *kase, i int, o *opts) result {
 				if o.skip[u.name] {
 					continue
 				}
+				if res.hung() {
+					return res
+				}
 				res.Units++
 				res.Sparse++
 				e.handlerSide(&u, c2h, pl)
@@ -700,6 +724,9 @@ func (e *env) do(k *kase, i int, o *opts) result {
 				u := unit{k: k, i: i, o: o, res: &res, name: "h2c:" + pl.name + "/" + eof, plan: pl.name, eof: eof, tokKind: tokKind}
 				if o.skip[u.name] {
 					continue
+				}
+				if res.hung() {
+					return res
 				}
 				res.Units++
 				res.Sparse++
@@ -1182,6 +1209,10 @@ func run(args []string) error {
 			go func() {
 				defer wg.Done()
 				for i := range ch {
+					if hangs.Load() >= maxHangs {
+						o.out.Emit(map[string]interface{}{"i": i, "not_run_after_hangs": true})
+						continue
+					}
 					o.out.Emit(map[string]int{"start": i})
 					o.out.Emit(f(i))
 				}
